@@ -65,6 +65,7 @@ def run(tier):
                  ("explore G(4) x A2 with reversed edge orientation, exact + approx k=2, bound 1", [["--n", 4, "--alpha", "A2", "--bound", 1, "--direct-bound", 1, "--orient", 1], ["--n", 4, "--alpha", "A2", "--bound", 1, "--direct-bound", 1, "--orient", 1, "--ks", "2"]]),
                  ("explore G(4) x A2 with reversed edge insertion order, exact + approx k=2, bound 1", [["--n", 4, "--alpha", "A2", "--bound", 1, "--direct-bound", 1, "--eorder", 1], ["--n", 4, "--alpha", "A2", "--bound", 1, "--direct-bound", 1, "--eorder", 1, "--ks", "2"]]),
                  ("explore G(4) x A2 with a positional output iterator, exact + approx k=2, bound 1", [["--n", 4, "--alpha", "A2", "--bound", 1, "--direct-bound", 1, "--outiter", 1], ["--n", 4, "--alpha", "A2", "--bound", 1, "--direct-bound", 1, "--outiter", 1, "--ks", "2"]]),
+                 ("explore G(4) x A2 with an exterior weight map (interior property holds decoys), exact x3, bound 1", [["--n", 4, "--alpha", "A2", "--bound", 1, "--direct-bound", 1, "--wmap", 1]]),
                  ("explore G(5) x U, approx x3, k=2, bound 1", [["--n", 5, "--alpha", "U", "--bound", 1, "--direct-bound", 1, "--ks", "2"]]),
                  ("purity probe over G(6) x U, dim >= 4 (default schedule + probe; inputs whose reduce bodies share state get direct exploration at bound 2)",
                   [["--n", 6, "--alpha", "U", "--bound", 0, "--direct-bound", 0, "--min-dim", 4]]),
